@@ -38,7 +38,8 @@ REQUIRED = ["detected_utf-8", "detected_cp1252", "detected_cp932", "detected_cp9
             "same_path_opened_twice_different_lists", "multibyte_char_straddles_1024", "output_and_backup_equal_input", "no_song_level_property",
             "file_ends_with_non_ascii_character", "input_path_with_several_dots", "several_dots_and_content_of_the_other_format",
             "backup_path_is_a_proper_prefix_of_the_input_path", "backup_name_differs_from_input_or_output_only_in_letter_case",
-            "utf8_bom_and_utf8_not_first_in_the_tried_list", "only_extra_components_edited_with_backup"]
+            "utf8_bom_and_utf8_not_first_in_the_tried_list", "only_extra_components_edited_with_backup",
+            "stale_file_under_the_backup_name"]
 
 DEFAULT = ["utf-8", "cp1252", "cp932", "cp949"]
 SAMPLES = {
@@ -233,6 +234,17 @@ class World:
         finally:
             self.rec.enabled = True
 
+    def write_abs(self, path, data):
+        self.rec.enabled = False
+        try:
+            if self.kind == "native":
+                with open(path, "wb") as f:
+                    f.write(data)
+            else:
+                self.fs.writebytes(path, data)
+        finally:
+            self.rec.enabled = True
+
     def snapshot(self):
         self.rec.enabled = False
         try:
@@ -372,6 +384,10 @@ def check(ctx, case):
         else:
             bak_path = world.path(bak_name) if bak_name else None
         clash = bak_path is not None and bak_path in (inp, out_path)
+        if bak_path and not clash and rng.random() < 0.4:
+            # something is already there under the backup name (an older backup): it is replaced by the new one
+            world.write_abs(bak_path, b"#TITLE:stale backup of an earlier run;\n")
+            ctx.feat("stale_file_under_the_backup_name")
         script = gen_script(rng, want_enc, ext, len(sf.charts))
         before = world.snapshot()
         rec.log.clear()
